@@ -250,11 +250,16 @@ def cfg_rule(ctx: Ctx) -> None:
         ca = call_args(m, tmem[0], "Memory") or {}
         rng = ca.get("address_range")
         try:
-            dflt = fold_in(m, ts.module, rng.orelse) if isinstance(rng, ast.IfExp) else None
+            # the range with the conditional parts resolved for a given size (truthy) and for the default (falsy / None)
+            size = ast.Name(id=ts.params[1], ctx=ast.Load())
+            pr_ = tfl.cprinter
+            rng_given = pr_.resolve_under(rng, pr_._bool(size)) if rng is not None else None
+            rng_dflt = pr_.resolve_under(rng, pr_._bool(size, False)) if rng is not None else None
+            dflt = fold_in(m, ts.module, rng_dflt) if rng_dflt is not None and not any(isinstance(x, ast.IfExp) for x in ast.walk(rng_dflt)) else None
             ok = ast.unparse(ca.get("addressing_type", ast.Constant(value=None))) == "AddressingType.HALF_WORD" \
                 and const_int(ca.get("address_length", ast.Constant(value=None))) == 12 \
                 and ("address_overflow" not in ca or (isinstance(ca["address_overflow"], ast.Constant) and ca["address_overflow"].value is False)) \
-                and dflt == range(4096) and isinstance(rng, ast.IfExp) and tfl.canon(rng.body) == "range(P1)" and tfl.canon(rng.test) in ("P1", "B:P1")
+                and dflt == range(4096) and rng_given is not None and tfl.canon(rng_given) == "range(P1)"
         except Unknown:
             ok = False
     r.check(ok, "toy-memory", ts.loc(), "TOY memory is not Memory(HALF_WORD, 12, no overflow, range(4096) by default)")
